@@ -130,7 +130,9 @@ def strategy_(draw, tier):
             lines.append("\t".join(f2))
             read = read + "TTT" + read2
         fasta.append(">%s\n%s\n" % (name, read))
-    return {"gfa": gen_graph.gfa_text(g, with_seq=True, order_seed=draw(st.integers(0, 99))), "gaf": lines,
+    ov = draw(st.integers(0, 20))  # a third of the graphs declare non-zero link overlaps (carried, never interpreted)
+    return {"gfa": gen_graph.gfa_text(g, with_seq=True, order_seed=draw(st.integers(0, 99)),
+                                      overlap_seed=ov if ov < 7 else None), "gaf": lines,
             "fasta": "".join(fasta), "cores": draw(st.integers(1, 2)), "batch": draw(st.integers(1, 3)),
             "kind": "sim", "long": long_class, "via": draw(st.sampled_from(["api", "api", "cli"]))}
 
@@ -291,6 +293,8 @@ def run_case(case):
         cl.add("consecutive_records_of_one_read")
     if case.get("kind") == "real":
         cl.add("real_processes")
+    if any(l.startswith("L\t") and l.split("\t")[5] != "0M" for l in case["gfa"].split("\n")):
+        cl.add("links_with_nonzero_overlap")
     return core.Result(nontrivial, sorted(cl))
 
 
